@@ -124,8 +124,17 @@ def r4_1(prog, rep):
     obl(rep, lb, lb.node, "R4.1", len(joins) == 1, "interaction labels join the component labels with ':' in the same order", nontrivial=False)
 
 
+class _Defs(dict):
+    def __init__(self, fn, items):
+        super().__init__(items)
+        self.fn = fn
+
+    def __missing__(self, key):
+        raise AnalysisError(f"{self.fn.qual}: no local `{key}` is assigned (the function no longer has the shape the rule reads)")
+
+
 def _defs(fn):
-    return {unparse(s.targets[0]): s for s in walk_local(fn.node) if isinstance(s, ast.Assign) and len(s.targets) == 1}
+    return _Defs(fn, {unparse(s.targets[0]): s for s in walk_local(fn.node) if isinstance(s, ast.Assign) and len(s.targets) == 1})
 
 
 def _attr_stores(prog, q):
@@ -255,7 +264,39 @@ def r4_2(prog, rep):
         "the reference row and the dropped label use different positions: every label after the reference is shifted")
     refs = [s for s in walk_local(f.node) if isinstance(s, ast.Assign) and unparse(s.targets[0]) == "reference"]
     ok = sorted(unparse(s.value) for s in refs) == ["0", "levels.index(self.reference)"]
-    obl(rep, f, refs[0] if refs else f.node, "R4.2", ok, "Treatment: reference = 0 by default, else the position of the requested level")
+    # ... and "by default" means: exactly when no reference was requested (`self.reference is None`).  A truthiness test would
+    # also send the requested levels 0, '' and False to the first level.
+    def guards(stmt):
+        out = []
+
+        def walk(stmts, acc):
+            for st in stmts:
+                if st is stmt:
+                    out.extend(acc)
+                    return True
+                if isinstance(st, ast.If):
+                    if walk(st.body, acc + [(unparse(st.test), True)]) or walk(st.orelse, acc + [(unparse(st.test), False)]):
+                        return True
+                elif isinstance(st, (ast.For, ast.While, ast.With, ast.Try)):
+                    for fld in ("body", "orelse", "finalbody"):
+                        if walk(getattr(st, fld, []) or [], acc):
+                            return True
+            return False
+
+        walk(f.node.body, [])
+        return out
+
+    NONE_T = {("self.reference is None", True), ("self.reference is not None", False), ("self.reference == None", True), ("self.reference != None", False)}
+    NONE_F = {(t, not v) for t, v in NONE_T}
+    if ok:
+        zero = [s_ for s_ in refs if unparse(s_.value) == "0"][0]
+        idx = [s_ for s_ in refs if unparse(s_.value) != "0"][0]
+        gz, gi = guards(zero), guards(idx)
+        ok = len(gz) == 1 and gz[0] in NONE_T and any(g in NONE_F for g in gi) \
+            and all(g in NONE_F or g in {("self.reference in levels", True), ("self.reference not in levels", False)} for g in gi)
+    obl(rep, f, refs[0] if refs else f.node, "R4.2", ok, "Treatment: reference = 0 exactly when none was requested (`is None`), else the position of the requested level", "",
+        "the default reference (position 0) is not taken exactly when `self.reference is None`: a requested level that is falsy (0, '', False) "
+        "or a different test sends other requests to the first level")
     if lv and "contrast" in d:
         obl(rep, f, lv[0], "R4.2", lv[0].lineno > d["contrast"].lineno and all(r.lineno < d["contrast"].lineno for r in refs),
             "Treatment: `reference` is computed on the full level list before either use")
@@ -264,7 +305,15 @@ def r4_2(prog, rep):
     f = prog.fn("categorical.Treatment.code_with_intercept")
     d = _defs(f)
     ok = unparse(d["contrast"].value) == "np.eye(len(levels), dtype=int)" and unparse(d["labels"].value) == "[str(level) for level in levels]"
-    obl(rep, f, f.node, "R4.2", ok, "Treatment (full): identity matrix and labels over the same level list")
+    # ... and that list is the caller's: the rows of the identity are indexed by the caller's category codes, so the labels must
+    # keep the caller's order (no re-binding, no in-place reordering of `levels`)
+    lvp = f.params[1] if len(f.params) > 1 else "levels"
+    moved = [n for n in ast.walk(f.node) if isinstance(n, ast.Name) and n.id == lvp and isinstance(n.ctx, (ast.Store, ast.Del))] + \
+        [c for c in calls_in(f.node) if isinstance(c.func, ast.Attribute) and unparse(c.func.value) == lvp
+         and c.func.attr in ("insert", "pop", "sort", "reverse", "remove", "append", "extend", "clear")]
+    ok = ok and lvp == "levels" and not moved
+    obl(rep, f, moved[0] if moved else f.node, "R4.2", ok, "Treatment (full): identity matrix and labels over the same level list, in the caller's order", "",
+        "Treatment (full): the labels are not taken from the caller's level list in its own order (the identity's rows are indexed by the caller's codes)")
     # Sum
     f = prog.fn("categorical.Sum.code_without_intercept")
     d = _defs(f)
@@ -279,6 +328,37 @@ def r4_2(prog, rep):
     ok = unparse(d["omit_index"].value) == "self._omit_index(levels)" and "out[omit_index, :] = -1" in unparse(g.node) \
         and "out[:omit_index, :] = eye[:omit_index, :]" in unparse(g.node) and "out[omit_index + 1:, :] = eye[omit_index:, :]" in unparse(g.node)
     obl(rep, g, g.node, "R4.2", ok, "Sum: the -1 row sits at the same _omit_index(levels)")
+    oi = prog.fn("categorical.Sum._omit_index")
+    rets = [n for n in walk_local(oi.node) if isinstance(n, ast.Return)]
+    by = {unparse(r_.value): r_ for r_ in rets if r_.value is not None}
+    ok = set(by) == {"len(levels) - 1", "levels.index(self.omit)"} and len(rets) == 2
+    if ok:
+        def guards_of(stmt):
+            out = []
+
+            def walk(stmts, acc):
+                for i, st in enumerate(stmts):
+                    if st is stmt:
+                        out.extend(acc)
+                        return True
+                    if isinstance(st, ast.If):
+                        if walk(st.body, acc + [(unparse(st.test), True)]) or walk(st.orelse, acc + [(unparse(st.test), False)]):
+                            return True
+                        # `if C: return a` followed by the rest: the rest runs under not C
+                        from ..core import block_terminates
+                        if block_terminates(st.body) and not st.orelse:
+                            acc = acc + [(unparse(st.test), False)]
+                return False
+
+            walk(oi.node.body, [])
+            return out
+
+        T = {("self.omit is None", True), ("self.omit is not None", False)}
+        F = {(t, not v) for t, v in T}
+        gl, gi = guards_of(by["len(levels) - 1"]), guards_of(by["levels.index(self.omit)"])
+        ok = len(gl) == 1 and gl[0] in T and len(gi) == 1 and gi[0] in F
+    obl(rep, oi, oi.node, "R4.2", ok, "Sum: the last level is omitted exactly when none was requested (`self.omit is None`), else the requested one", "",
+        "the default omitted level is not chosen exactly when `self.omit is None` (a truthiness test also catches the requested levels 0, '' and False)")
     h = prog.fn("categorical.Sum.code_with_intercept")
     d = _defs(h)
     ok = unparse(d["matrix"].value) == "np.column_stack((np.ones(len(levels), dtype=int), contrast.matrix))" and unparse(d["labels"].value) == "['mean'] + contrast.labels"
